@@ -99,6 +99,14 @@ pub fn run(ctx: &Ctx) {
     }
     // listed known finding siglen>65535: always exercised
     grid.push(SignCase { hash: HashId::Sha256_256, levels: vec![(1, 2); 8], seed: gen::SeedSpec::Random(8), counter: 9, counter_class: "siglen".into(), msg: gen::MsgSpec { len: 10, tag: 8 } });
+    // a child tree of height 15 (type code 7) below a small root, at a leaf beyond 8 bits
+    grid.push(SignCase { hash: HashId::Shake256_128, levels: vec![(8, 2), (2, 15)], seed: gen::SeedSpec::Random(15), counter: 2 * 32768 + 30_000, counter_class: "h15-child".into(), msg: gen::MsgSpec { len: 21, tag: 15 } });
+    // every message length 0..=200 (hash block boundaries of the message digest), rotating hash / W / counter
+    for len in 0..=200usize {
+        let h = ALL_HASHES[len % 6];
+        let w = [8u32, 4, 2, 1][(len / 6) % 4];
+        grid.push(SignCase { hash: h, levels: vec![(w, 2)], seed: gen::SeedSpec::Random(len as u64), counter: (len % 4) as u64, counter_class: "msg-len".into(), msg: gen::MsgSpec { len, tag: len as u64 } });
+    }
     ctx.enumerate("grid_all_hash_w", grid.len() as u64, true, |i| grid[i as usize].clone(), |c| check_byte_exact(ctx, c));
 
     if !ctx.quick() {
@@ -148,6 +156,9 @@ pub fn run(ctx: &Ctx) {
             }
             if !hss::verify(&m, &msg, &sig, &pk) {
                 return fail("model-verify-rejects", "independent verifier rejects the signature of an H20 key at a leaf index beyond 16 bits");
+            }
+            if !libapi::verify(c.hash, libapi::VerifyEntry::Function, &msg, &sig, &pk).is_ok() {
+                return fail("lib-verify-rejects", "the library's verifier rejects the signature of an H20 key at a leaf index beyond 16 bits");
             }
             pass(format!("h20|{}", c.hash.name()), true)
         });
